@@ -243,7 +243,8 @@ class PdoMap:
         else:
             try:
                 var = self.__getitem_by_index(int(key, 16))
-            except ValueError:
+            except (ValueError, KeyError):
+                # Not a hex index, or a name that merely looks like one ("Feed")
                 var = self.__getitem_by_name(key)
         return var
 
